@@ -8,9 +8,9 @@ from checks_scan import chain_walk, hdr_fields, flt_args, flt_token, parse_view_
 from checks_link import model_run, mode_args, mode_tok, MODES, faults, impl_errs
 
 
-def erroneous_stream(R, nlinks=3, nfaults=6, max_hbf=3):
+def erroneous_stream(R, nlinks=3, nfaults=6, max_hbf=3, exclude=()):
     F = faults(R)
-    names = [k for k in F if k not in ('rdh_version',)]
+    names = [k for k in F if k not in ('rdh_version',) + tuple(exclude)]
     base, meta = G.conforming_stream(R, nlinks=nlinks, max_hbf=max_hbf)
     pk = [p.clone() for p in base]
     for _ in range(nfaults):
@@ -367,7 +367,154 @@ def run_c05(ck, ctx):
     ck.sample(dict(note='real binary with hook H2 run under different perturbation seeds; arrival order at the collector traced'))
 
 
+# =============================================================== C19
+ROW_RE = re.compile(r'^\s*([0-9A-F]+): (RDH|IHW|TDH|TDT|DDW|CDW|DATA) (.*)$')
+
+
+def parse_frame_view(stdout):
+    rows = []
+    for l in L.ANSI.sub('', stdout.decode('utf-8', 'replace')).split('\n'):
+        m = ROW_RE.match(l)
+        if not m: continue
+        off, typ, rest = int(m.group(1), 16), m.group(2), m.group(3)
+        if typ == 'RDH':
+            mm = re.match(r'v(\d+) stop=(\d+) stave: L(\d+)_(\d+)\s+(\S+)\s+#\s*(\d+)\s+(\S+)\s+(\d+)_\s*(\d+)', rest)
+            rows.append(('R', off) + (tuple(mm.groups()) if mm else ('?',)))
+        else:
+            mb = re.match(r'\[((?:[0-9A-F]{2} ?){10})\]\s*(.*)$', rest)
+            rows.append(('W', off, typ, mb.group(1).replace(' ', '') if mb else '?', ' '.join(mb.group(2).split()) if mb else '?'))
+    return rows
+
+
+def lane_status(b7):
+    lanes = [(b >> (2 * j)) & 3 for b in b7 for j in range(4)]
+    if any(x == 3 for x in lanes): return 'Fatal'
+    if any(x & 2 for x in lanes): return 'Error'
+    if any(x & 1 for x in lanes): return 'Warning'
+    return '-'
+
+
+def expected_frame_rows(data, flt, show_data):
+    """model-free: rows computed from the bytes"""
+    from checks_scan import matches
+    rows = []
+    for o, h, p in chain_walk(data):
+        if not matches(flt, h): continue
+        f = hdr_fields(h)
+        t = f['trig']
+        trig = 'SOC' if t >> 9 & 1 else 'SOT' if t >> 7 & 1 else 'HB' if t >> 1 & 1 else 'PhT' if t >> 4 & 1 else 'Other'
+        d = f['det']
+        ls = 'Fatal' if d >> 3 & 1 else 'Error' if d >> 2 & 1 else 'Warning' if d >> 1 & 1 else 'Missing' if d & 1 else '-'
+        rows.append(('R', o, str(f['ver']), str(f['stop']), str((f['fee'] >> 12) & 7), str(f['fee'] & 63), trig, str(f['link']), ls, str(f['orbit']), str(f['bc'])))
+        slot = 16 if f['df'] == 0 else 10
+        # words as laid out for the header's data format (the generator keeps layout and format in agreement)
+        n = len(p) // slot if slot == 16 else (len(p) - (len(p) - len(p.rstrip(b'\xff')))) // 10
+        for k in range(n):
+            w = p[k * slot:k * slot + 10]
+            idb = w[9]
+            typ = {0xE0: 'IHW', 0xE8: 'TDH', 0xF0: 'TDT', 0xE4: 'DDW', 0xF8: 'CDW'}.get(idb)
+            if typ is None and ((idb >> 5 == 1 and (idb & 31) <= 8) or (idb >> 5 == 2 and (idb & 7) <= 6)): typ = 'DATA'
+            if typ is None or (typ == 'DATA' and not show_data): continue
+            W = int.from_bytes(w, 'little')
+            if typ == 'TDH':
+                tr = 'SOC' if W >> 9 & 1 else 'Internal' if W >> 12 & 1 else 'PhT' if W >> 4 & 1 else 'Other'
+                attrs = ' '.join(x for x in [tr, 'Cont.' if W >> 14 & 1 else '', 'No data' if W >> 13 & 1 else 'Data!', f'{(W >> 32) & 0xFFFFFFFF}_', str((W >> 16) & 0xFFF)] if x)
+                attrs = attrs.replace('_ ', '_ ') 
+            elif typ == 'TDT': attrs = ('Complete' if W >> 64 & 1 else 'Split') + ' ' + lane_status(w[:7])
+            elif typ == 'DDW': attrs = lane_status(w[:7])
+            else: attrs = ''
+            rows.append(('W', o + 64 + k * slot, typ, w.hex().upper(), attrs))
+    return rows
+
+
+def norm_attrs(a): return re.sub(r'_\s+', '_', ' '.join(a.split()))
+
+
+def run_c19(ck, ctx):
+    R, tier = ctx['R'], ctx['tier']
+    n = 6 if tier == 'quick' else 60
+    jobs = []
+    for si in range(n):
+        if si % 3 == 2: pk, meta = erroneous_stream(R, nlinks=R.randint(1, 3), nfaults=4, exclude=('padding_over_15', 'rdh_fee_reserved', 'rdh_fee_stave48'))
+        else: pk, meta = G.conforming_stream(R, nlinks=R.randint(1, 4))
+        # flag combinations of TDT / DDW0 lane status and detector-field status bits
+        for p in pk:
+            p.rdh['det'] = R.choice([0, 1, 2, 4, 8, 3, 12, 0x10, 0xFC0])
+            for k, w in enumerate(p.words):
+                if w[9] in (0xF0, 0xE4) and R.random() < 0.5:
+                    b = bytearray(w); b[R.randrange(7)] = R.choice([1, 2, 3, 0x10, 0x80, 0xC0, 0x55, 0xAA]); p.words[k] = bytes(b)
+        data = G.encode(pk)
+        l = pk[R.randrange(len(pk))].rdh
+        for view in ('rdh', 'frames', 'data'):
+            for flt in (None, ('link', l['link']), ('fee', l['fee'])):
+                for styled in (False, True):
+                    jobs.append((si, view, flt, styled, data))
+
+    def job(j):
+        si, view, flt, styled, data = j
+        args = ['view', {'rdh': 'rdh', 'frames': 'its-readout-frames', 'data': 'its-readout-frames-data'}[view]] + ([] if styled else ['-d']) + flt_args(flt)
+        return L.run_cli(args, data, stats=False)
+    res = L.pmap(job, jobs)
+    reqs, rj = [], []
+    plain = {}
+    for j, r in zip(jobs, res):
+        si, view, flt, styled, data = j
+        ck.case((si, view, flt, styled)); ck.count(f'view_{view}_{"styled" if styled else "plain"}')
+        if r.exit != 0:
+            ck.violation('abnormal', {'what': 'view ended abnormally', 'view': view, 'exit': r.exit, 'stderr': L.ANSI.sub('', r.stderr)[-300:], 'input_hex': data.hex()[:200000]},
+                         key='stave-layer-or-alpide-panic' if 'Invalid layer' in r.stderr else None)
+            continue
+        if view == 'rdh':
+            from checks_scan import matches
+            got = [(o, [t for t in toks]) for o, toks in parse_view_rdh(L.ANSI.sub('', r.stdout.decode('utf-8', 'replace')).encode(), start=10 if styled else 11)]
+            exp = [(o, hdr_fields(h)) for o, h, p in chain_walk(data) if matches(flt, h)]
+            ok = len(got) == len(exp) and all(o == eo and int(t[0]) == f['ver'] and int(t[2]) == f['fee'] and int(t[5]) == f['link'] and int(t[7]) == f['bc']
+                                               and int(t[8], 16) == f['orbit'] and int(t[9]) == f['df'] and int(t[10], 16) == f['trig'] and int(t[11]) == f['page']
+                                               and int(t[12]) == f['stop'] and int(t[13], 16) == f['det'] for (o, t), (eo, f) in zip(got, exp))
+            if not ok:
+                ck.violation('rdh_rows', {'what': '`view rdh` rows differ from the RDHs in the data', 'styled': styled, 'filter': flt, 'rows': len(got), 'expected': len(exp),
+                                          'input_hex': data.hex()[:200000]})
+            canon = [(o, tuple(t)) for o, t in got]
+        else:
+            got = parse_frame_view(r.stdout)
+            exp = expected_frame_rows(data, flt, view == 'data')
+            g2 = [x[:4] + (norm_attrs(x[4]),) if x[0] == 'W' else x for x in got]
+            e2 = [x[:4] + (norm_attrs(x[4]),) if x[0] == 'W' else x for x in exp]
+            if g2 != e2:
+                k = next((i for i, (a, b) in enumerate(zip(g2, e2)) if a != b), min(len(g2), len(e2)))
+                ck.violation('frame_rows', {'what': 'readout-frame view rows differ from what is in the data (offset / bytes / type / attributes)', 'view': view, 'styled': styled,
+                                            'filter': flt, 'first_difference_index': k, 'got': str(g2[k:k + 2]), 'expected': str(e2[k:k + 2]), 'input_hex': data.hex()[:200000]})
+            canon = g2
+            if not styled:
+                reqs.append(f'view kind={view} filter={flt_token(flt)} data={G.hexs(data)}'); rj.append(g2)
+        key = (si, view, flt)
+        if not styled: plain[key] = canon
+        elif key in plain and plain[key] != canon:
+            ck.violation('styled', {'what': 'styled and unstyled output carry different content', 'view': view, 'filter': flt, 'input_hex': data.hex()[:200000]})
+    model = L.run_driver(reqs)
+    dis = []
+    for q, m, g in zip(reqs, model, rj):
+        mr = []
+        for t in m.replace('INCOMPLETE ', '').split(' '):
+            if not t: continue
+            parts = t.split(':')
+            if parts[0] == 'R': mr.append(('R', int(parts[1])) + tuple(parts[2:]))
+            else: mr.append(('W', int(parts[1]), {'ihw': 'IHW', 'tdh': 'TDH', 'tdt': 'TDT', 'ddw': 'DDW', 'cdw': 'CDW', 'data': 'DATA'}[parts[2]], parts[3],
+                             norm_attrs(' '.join(x.replace('_', ' ') if i != 3 else x for i, x in enumerate(parts[4].split('|')) if x)) if len(parts) > 4 else ''))
+        g3 = [x[:4] + (x[4].replace('_ ', '_'),) if x[0] == 'W' else x for x in g]
+        m3 = [x[:4] + (re.sub(r'(\d+) (\d+)$', r'\1_\2', x[4]) if x[2] == 'TDH' else x[4],) if x[0] == 'W' else x for x in mr]
+        if [x[:4] for x in g3] != [x[:4] for x in m3]:
+            dis.append((0, q[:120], str(g3[:3]), str(m3[:3])))
+    ck.corr['view_model'] = dict(cases=len(reqs), disagreements=len(dis))
+    report_dis(ck, 'view_model', dis)
+    ck.sample(dict(views=['rdh', 'its-readout-frames', 'its-readout-frames-data'], styled=[False, True]))
+
+
 CHECKS = {
+    'C19': dict(modules=['FastPasta.Props.C19'], run=run_c19, needs_harness=False, corr='view_model',
+                theorems=['FastPasta.C19.rdh_view_rows', 'FastPasta.C19.rdh_view_rows_explicit', 'FastPasta.C19.word_rows_spec', 'FastPasta.C19.word_rows_complete',
+                          'FastPasta.C19.byte_fatal_iff', 'FastPasta.C19.byte_error_iff', 'FastPasta.C19.lane_status_fatal_iff', 'FastPasta.C19.viewKind_eq_kindOfId',
+                          'FastPasta.C19.types_agree_on_conforming']),
     'C05': dict(modules=['FastPasta.Props.C05'], run=run_c05, needs_harness=True, corr='collector',
                 theorems=['FastPasta.C05.schedule_independent', 'FastPasta.C05.display_and_exit_independent', 'FastPasta.C05.field_run', 'FastPasta.C05.field_indep',
                           'FastPasta.C05.counter_indep', 'FastPasta.C05.alpide_indep', 'FastPasta.C05.errors_run', 'FastPasta.sortStable_congr', 'FastPasta.sorted_unique',
